@@ -22,13 +22,16 @@ PATTERNS = ['foo', 'bar', r'\.count$', '^carbon', '^a', 'z$', 'a|b', '[0-9]+', '
             'é', r'\.', '^[^.]+$', 'prod|stage', r'^(?!ok)', 'cpu.*idle', 'tmp',
             # groups, back-references, named groups, inline flags: each LINE is one regular expression of its own
             r'^(\w+)\.\1\.', r'^(carbon|servers|stats)\.', r'(a|b)\.(c|d)', r'(\d)\1', r'(?P<h>web\d+)\.(?P=h)', r'(?P<h>x)y',
-            r'^(?:prod|stage)\.(api)\.\1', r'(?i)^WEB', r'(.)\1$']
+            r'^(?:prod|stage)\.(api)\.\1', r'(?i)^WEB', r'(.)\1$', 'caf\u00e9', '^servers\\.caf\u00e9\\.', ';dc=a', 'host=b;dc', r'^\w+$']
 NOISE = ['# a comment', '', '   ', '#', '(', '[a', '*x', '(?P<n', '\\',
          # every way re.compile can fail (errors with and without a position, with and without a pattern line number)
          '(?<=ab|xyz)cd', '(?<!a*)b', '(?P<h>x)(?P<h>y)', 'a{2,1}', '[z-a]', '(?z)', '\\1', '(?P=nope)', 'a**', '(?i', '\\N{nope}']
 NAMES = ['foo', 'foo.bar', 'a', 'z', 'carbon.agents.x', 'servers.web1.cpu.idle', 'servers.web22.mem', 'xx', 'CPU.load', 'cpu.load',
          'ok.fine', 'prod.api.count', 'stage.api.hits', 'tmp', 'é.metric', 'nomatch', 'Q', '12', 'b', 'abc.def.count', 'bar.baz',
-         'web01.web01.load', 'host7.host7.cpu', 'a.c', 'b.d.x', 'n.11', 'web3.web3', 'web3.web4', 'prod.api.api', 'stage.api.apx', 'Web.x', 'zz']
+         'web01.web01.load', 'host7.host7.cpu', 'a.c', 'b.d.x', 'n.11', 'web3.web3', 'web3.web4', 'prod.api.api', 'stage.api.apx', 'Web.x', 'zz',
+         # tagged series, well-formed and not (the rules see the name as received), non-ASCII
+         'web.hits;dc=a;host=b', 'web.hits;host=b;dc=a', 'web.hits;', 'x;dc', ';dc=a', 'x;dc=', 'x;dc=~a', 'x;d!c=a', 'cpu{mode="idle"}',
+         'servers.caf\u00e9.load', 'caf\u00e9', '\u00e9\u00e9.x']
 
 
 def configs(tier, seed):
@@ -168,7 +171,11 @@ def run_config(cfg, res):
       b0 = instrumentation.stats.get('blacklistMatches', 0)
       w0 = instrumentation.stats.get('whitelistRejects', 0)
       if protoname == 'pickle':
-        stream = codec.encode_pickle_frame([(n, (t, v)) for n, t, v in batch], protocol=r.randrange(0, 6))
+        if r.random() < 0.3 and all(isinstance(t, (int, float)) and t == t for _, t, v in batch) and not any(isinstance(v, float) and v != v for _, _, v in batch):
+          stream = codec.encode_pickle_frame_py2([(n, (t, v)) for n, t, v in batch], protocol=r.randrange(0, 3), r=r)    # a python2 sender
+          res.count('python2_style_frames')
+        else:
+          stream = codec.encode_pickle_frame([(n, (t, v)) for n, t, v in batch], protocol=r.randrange(0, 6))
         o = proto.tcp_session(P.MetricPickleReceiver, [stream], rec)
       else:
         lines = []
